@@ -30,8 +30,6 @@ def point? : Val → Option (Float × Option Float)
 
 def dgm? : Val → Option (Dgm Float) := listOf? point?
 
-def pi4 : Float := 3.141592653589793 / 4
-
 def ofOptFloat : Option Float → Val
   | some x => .flt x
   | none => .inf false
@@ -47,10 +45,10 @@ def optRatE? : Val → Option (Option Rat)
 def diagSpec (p : Float × Float) : Float := (p.2 - p.1) / Float.sqrt 2.0
 
 def runExh (d1 d2 : Dgm Float) : Option (Except Err (Out Float)) :=
-  let D := matrixOf Float.sqrt (Float.cos pi4) (Float.sin pi4) d1 d2
+  let D := matrixOf Float.sqrt d1 d2
   match exhGo D [] with
   | none => none
-  | some _ => some (wasserstein Float.sqrt (Float.cos pi4) (Float.sin pi4) exhLsa d1 d2)
+  | some _ => some (wasserstein Float.sqrt exhLsa d1 d2)
 
 def ofRows (rows : List (Int × Int × Option Float)) : Val :=
   .list (rows.map fun r => .list [Val.ofInt r.1, Val.ofInt r.2.1, ofOptFloat r.2.2])
@@ -59,7 +57,7 @@ def handle : Handler
   | "ws.matrix", [a, b] => do
     let d1 ← dgm? a
     let d2 ← dgm? b
-    let D := matrixOf Float.sqrt (Float.cos pi4) (Float.sin pi4) d1 d2
+    let D := matrixOf Float.sqrt d1 d2
     pure (.list [ofBool (warned d1), ofBool (warned d2), .list (D.map fun r => .list (r.map ofOptFloat))])
   | "ws.exh", [a, b] => do
     let d1 ← dgm? a
